@@ -624,11 +624,10 @@ Section GovProofs.
   Lemma ext_opext st st' : ext st st' -> opext st st'.
   Proof. intros H Hs. destruct (H Hs) as [A B]. split; [exact A | apply sev_sevb; exact B]. Qed.
 
-  Lemma zero_perm_ext (st : state) internal i st' :
-    zero_perm sem e_default cfg_fixed st internal i = Ok st' -> ext st st'.
+  Lemma zero_perm_ext (st : state) i st' :
+    zero_perm sem e_default cfg_fixed st i = Ok st' -> ext st st'.
   Proof.
-    unfold zero_perm. cbn [d_zero_open cfg_fixed orb negb]. rewrite andb_true_r.
-    destruct (negb internal); [discriminate|].
+    unfold zero_perm. cbn [d_zero_open cfg_fixed orb].
     destruct (get_prop st i) as [p|] eqn:Hg; [|discriminate].
     destruct (h_zero (p_hdr p) && (p_status p <? 2)) eqn:Ec; [|intro H; inversion H; apply ext_refl].
     apply andb_true_iff in Ec. destruct Ec as [_ Ec].
@@ -639,7 +638,7 @@ Section GovProofs.
 
   Lemma zero_after_ext (st : state) i st' : zero_after sem e_default cfg_fixed st i = Ok st' -> ext st st'.
   Proof.
-    unfold zero_after. destruct (zero_perm sem e_default cfg_fixed st true i) as [s|c] eqn:Ez; [|discriminate].
+    unfold zero_after. destruct (zero_perm sem e_default cfg_fixed st i) as [s|c] eqn:Ez; [|discriminate].
     intro H; inversion H; subst. eapply zero_perm_ext; exact Ez.
   Qed.
 
@@ -1133,9 +1132,13 @@ Section GovProofs.
     step E_eqb sem e_default cfg st (OGuarded c) = (st, 1).
   Proof. reflexivity. Qed.
 
-  Theorem zero_permission_refused (st : state) c i :
-    step E_eqb sem e_default cfg_fixed st (OZero c i) = (st, 1).
-  Proof. reflexivity. Qed.
+  Theorem zero_permission_closed (st : state) c i p :
+    get_prop st i = Some p -> is_open p = false ->
+    step E_eqb sem e_default cfg_fixed st (OZero c i) = (st, 0).
+  Proof.
+    intros Hg Ho. unfold step, run, zero_perm. rewrite Hg. cbn [d_zero_open cfg_fixed orb].
+    unfold is_open in Ho. rewrite Ho, andb_false_r. reflexivity.
+  Qed.
 
   (** * Bookkeeping of the available electorate (partial): established at submission and
         preserved by a vote; its preservation across role changes is checked on every trace by
